@@ -899,6 +899,19 @@ func (ex *Exec) loopLatch(li *loopInfo, latch *ssa.BasicBlock) {
 		}
 		c.obligeNamed(name, "inv.keep", pos, "loop invariant is preserved: "+cl.Text, guard, g)
 	}
+	if len(ex.invariants(li)) > 0 {
+		// vacuity guard: the assumptions accumulated along the loop body must not be contradictory
+		name := fmt.Sprintf("cover.latch.L%d", li.ordinal)
+		if len(li.latches) > 1 {
+			for j, l := range li.latches {
+				if l == latch {
+					name = fmt.Sprintf("%s.e%d", name, j+1)
+				}
+			}
+		}
+		cv := c.obligeNamed(name, "cover", pos, "the end of the loop body is reachable under the assumptions made", guard, tTrue)
+		cv.Cover = true
+	}
 }
 
 func (ex *Exec) invariants(li *loopInfo) []*Clause {
@@ -1268,7 +1281,16 @@ func (ex *Exec) doSlice(in *ssa.Slice) {
 		ex.obligeSafety("slice", ex.pos(in.Pos()), "array slice bounds in range", And(ex.idxLe(zero, lo), ex.idxLe(lo, hi), ex.idxLe(hi, mx), ex.idxLe(mx, n)))
 		base := ex.locOf(in.X)
 		if base.Kind != LElem || base.Idx.S != "" || len(base.Path) != 0 {
-			panic(unsupported("slicing an array that is not a standalone object"))
+			// an array embedded in a struct (or another array): the slice is modelled as a copy of the
+			// current contents in a fresh backing array
+			arrVal := ex.loadLoc(ex.st, base)
+			ref := ex.allocRef()
+			k := c.keyElem(arr.Elem())
+			c.heapSet(ex.st, k, Store(c.heapGet(ex.st, k), ref, arrVal))
+			c.trust("a slice of an array embedded in a struct is modelled as a copy (writes through it are not propagated back)")
+			c.note("%s: slice of an embedded array at %s modelled as a copy", ex.fn.Name(), relPos(ex.pos(in.Pos())))
+			ex.set(in, Val{T: ex.mkSlice(ref, lo, ex.idxSub(hi, lo), ex.idxSub(mx, lo)), Ty: in.Type()})
+			return
 		}
 		ex.set(in, Val{T: ex.mkSlice(base.Ref, lo, ex.idxSub(hi, lo), ex.idxSub(mx, lo)), Ty: in.Type()})
 	default:
